@@ -2,7 +2,7 @@
 import numpy as np
 from hypothesis import strategies as st
 from vf import gens, oracles
-from vf.runner import hyp_run, guard, fail, exc_failure
+from vf.runner import hyp_run, run_cases, guard, fail, exc_failure
 
 RULE = ("images drawn from 11 structured kinds (random fills, checkerboards, combs, spirals, "
         "staircases, borders, blobs...) x shapes 2x2..64x64 (quick) / ..512x512 (thorough) incl. "
@@ -237,11 +237,8 @@ BIG = [  # deterministic large adversaries (label table reallocation, long chain
 def run_shard(rec):
     quick = rec.tier == "quick"
     # deterministic big cases are spread over shards
-    for n, case in enumerate(BIG):
-        if n % rec.nshards == rec.shard:
-            f = rec.filter_known(check(case, rec))
-            if f:
-                rec.violation("big", case, f)
+    run_cases(rec, "big", [c for n, c in enumerate(BIG) if n % rec.nshards == rec.shard],
+              lambda c: check(c, rec))
     maxdim = 48 if quick else 96
     hyp_run(rec, "small", cases(maxdim), lambda c: check(c, rec),
             max_examples=1200 if quick else 6000, shrink=True)
